@@ -7,7 +7,7 @@
                                  pause_writing (with the nested deadline coroutine: its delay and what it does on expiry) /
                                  resume_writing
   hpfeeds/asyncio/protocol.py    BaseProtocol.message_received (the dispatch on the opcode, handlers resolved along
-                                 Connection -> BaseProtocol)
+                                 Connection -> BaseProtocol), process_pending (the frame loop), data_received
 
 Each method becomes one Gallina definition in the monad of coq/PyBroker.v (a computation over the broker model's state);
 coq/BrokerGenEq.v proves every one of them equal to the hand-written function of coq/Broker.v the theorems are about.
@@ -44,6 +44,9 @@ METHODS = [            # (class, method, parameter kinds after self), in depende
     ('Connection', 'on_auth_result', ['lres', 'text', 'text']),
     ('BaseProtocol', 'message_received', ['opcode', 'text']),
     ('Connection', 'message_received', ['opcode', 'text']),
+    ('BaseProtocol', 'process_pending', []),
+    ('BaseProtocol', 'data_received', ['text']),
+    ('Connection', 'data_received', ['text']),
     ('Connection', 'connection_made', ['transport-arg']),
     ('Connection', 'pause_writing', []),
     ('Connection', 'resume_writing', []),
@@ -338,6 +341,13 @@ class Fn:
                 if [k for k, _, _ in a] != ['opcode', 'text'] or any(g for _, _, g in a):
                     raise Unsupported(s, 'super().message_received arguments')
                 return '(call_ret (BaseProtocol_message_received self %s %s))' % (a[0][1], a[1][1])
+            if (self.key == 'Connection.data_received' and isinstance(v, ast.Call) and is_attr(v.func, 'data_received')
+                    and isinstance(v.func.value, ast.Call) and is_name(v.func.value.func, 'super') and not v.func.value.args
+                    and len(v.args) == 1 and not v.keywords and ('BaseProtocol', 'data_received') in self.tr.done):
+                k, a, g = self.expr(v.args[0])
+                if k != 'text' or g:
+                    raise Unsupported(s, 'super().data_received argument')
+                return '(call_ret (BaseProtocol_data_received self %s))' % a
             if self.key == 'BaseProtocol.message_received' and isinstance(v, ast.Call) and is_attr(v.func) and is_name(v.func.value, 'self') \
                     and not v.keywords and len(v.args) == 1:
                 return self.dispatch(s, v)
@@ -372,6 +382,39 @@ class Fn:
             h = self.block(s.handlers[0].body)
             self.env[nm] = ('lookup', nm)
             return '(fun s => match %s with RRaise => %s s | RLook %s => %s s end)' % (tk, h, nm, self.block(rest, top))
+        if isinstance(s, ast.Try) and self.key == 'BaseProtocol.process_pending' and len(s.handlers) == 1 \
+                and is_name(s.handlers[0].type, 'ProtocolException') and 'ProtocolException' in self.tr.exc_imported:
+            # try: for opcode, data in self.unpacker: if self.message_received(opcode, data): break
+            # except ProtocolException as e: ...
+            ok = False
+            if len(s.body) == 1 and isinstance(s.body[0], ast.For) and not s.orelse and not s.finalbody:
+                fr = s.body[0]
+                tg = fr.target
+                if (is_attr(fr.iter, 'unpacker') and is_name(fr.iter.value, 'self') and not fr.orelse and isinstance(tg, ast.Tuple)
+                        and len(tg.elts) == 2 and all(is_name(x) for x in tg.elts) and len(fr.body) == 1 and isinstance(fr.body[0], ast.If)):
+                    iff = fr.body[0]
+                    c = iff.test
+                    if (not iff.orelse and len(iff.body) == 1 and isinstance(iff.body[0], ast.Break) and isinstance(c, ast.Call)
+                            and is_attr(c.func, 'message_received') and is_name(c.func.value, 'self') and not c.keywords
+                            and [a.id for a in c.args if is_name(a)] == [x.id for x in tg.elts] and len(c.args) == 2
+                            and self.tr.resolve('message_received') == 'Connection'):
+                        ok = True
+            if not ok:
+                raise Unsupported(s, 'frame loop shape')
+            en = s.handlers[0].name
+            hb = []
+            for x in s.handlers[0].body:
+                # self.protocol_error(str(e)): BaseProtocol's is `pass`
+                if (isinstance(x, ast.Expr) and isinstance(x.value, ast.Call) and is_attr(x.value.func, 'protocol_error')
+                        and is_name(x.value.func.value, 'self') and len(x.value.args) == 1 and isinstance(x.value.args[0], ast.Call)
+                        and is_name(x.value.args[0].func, 'str') and [a.id for a in x.value.args[0].args if is_name(a)] == [en]
+                        and self.tr.resolve('protocol_error') == 'pass'):
+                    continue
+                hb.append(x)
+            h = self.block(hb)
+            loop = ('(for_unpacker_until self (process_pending self) (fun %s %s => Connection_message_received self %s %s))'
+                    % (tg.elts[0].id, tg.elts[1].id, tg.elts[0].id, tg.elts[1].id))
+            return '(seqB (try_proto %s %s)\n   %s)' % (loop, h, self.block(rest, top))
         if isinstance(s, ast.Try):
             if (s.orelse or s.finalbody or len(s.handlers) != 1 or not is_name(s.handlers[0].type, 'Exception')
                     or s.handlers[0].name):
@@ -463,6 +506,15 @@ class Fn:
                 and isinstance(t.comparators[0], ast.Constant) and t.comparators[0].value is None and not s.orelse
                 and self.only_opaque_effects(s.body)):
             return self.block(rest, top)        # if sock is not None: sock.setsockopt(..): keep-alive options, not modelled
+        if not s.orelse and all(isinstance(x, ast.Expr) and isinstance(x.value, ast.Call) for x in s.body):
+            # an `if` that only guards statements that are not modelled (a metric no property names): nothing happens
+            try:
+                k, _, g = self.expr(t)
+                empty = not g and all(self.metric(x.value) == [] for x in s.body)
+            except Unsupported:
+                empty = False
+            if empty:
+                return self.block(rest, top)
         # `if not akrow: ...; return` : from here on akrow is a row
         if (isinstance(t, ast.UnaryOp) and isinstance(t.op, ast.Not) and is_name(t.operand) and t.operand.id in self.env
                 and self.env[t.operand.id][0] == 'lookup' and self.terminates(s.body) and not s.orelse):
@@ -694,6 +746,12 @@ class Fn:
         # self.protocol_error(..): BaseProtocol's is `pass` and Connection does not override it
         if f.attr == 'protocol_error' and is_name(f.value, 'self') and self.tr.resolve('protocol_error') == 'pass':
             return []
+        # self.unpacker.feed(data)
+        if f.attr == 'feed' and is_attr(f.value, 'unpacker') and is_name(f.value.value, 'self') and len(c.args) == 1:
+            k, a, g = self.expr(c.args[0])
+            if k != 'text' or g:
+                raise Unsupported(c, 'feed argument')
+            return [self.eff('p_feed self %s' % a)]
         # methods of a connection
         k, x, g = self.expr(f.value)
         if k == 'conn':
@@ -743,6 +801,11 @@ class Translator:
                       and is_attr(s.value.func, 'getLogger')):
                     logs.add(s.targets[0].id)
             self.imported[c], self.metrics[c], self.loggers[c] = imp, met, logs
+            if c == 'BaseProtocol':
+                self.exc_imported = set()
+                for s in t.body:
+                    if isinstance(s, ast.ImportFrom) and s.module == 'hpfeeds.exceptions':
+                        self.exc_imported |= {a.asname or a.name for a in s.names}
         self.base_ok = self.check_base()
         self.get_authkey_ok = self.check_get_authkey()
 
@@ -798,12 +861,16 @@ class Translator:
                                 and [a.id for a in body[0].value.args[0].args if is_name(a)] == params
                                 and not m.decorator_list):
                             ok[m.name] = True
+        for m in self.find_class('BaseProtocol').body:
+            # asyncio.Protocol's default eof_received (None: the transport closes itself) is part of the model
+            if isinstance(m, ast.FunctionDef) and m.name == 'eof_received':
+                raise Unsupported(m, 'BaseProtocol overrides eof_received')
         conn = self.find_class('Connection')
         bases = [b.id for b in conn.bases if is_name(b)]
         if bases != ['BaseProtocol']:
             raise Unsupported(conn, 'Connection bases')
         for m in conn.body:
-            if isinstance(m, ast.FunctionDef) and m.name in ('error', 'publish', 'info', 'process_pending'):
+            if isinstance(m, ast.FunctionDef) and m.name in ('error', 'publish', 'info', 'process_pending', 'protocol_error', 'eof_received'):
                 raise Unsupported(m, 'Connection overrides BaseProtocol.%s' % m.name)
         return ok
 
